@@ -48,7 +48,8 @@ pub fn run(args: &Args) -> Report {
                    for (uid, selection_absent, unknown_rk_text, json_route) in [(0usize, false, false, 0u8), (1, false, false, 0), (2, false, false, 0), (0, true, false, 0), (0, false, true, 0), (0, false, false, 1), (0, false, false, 2), (0, false, false, 3), (0, false, false, 4)] {
                     // the request arrives as JSON and is decoded on one of the routes serde_json offers (from a
                     // string, from a tree, from a reader, from a string whose residentKey text carries an escape)
-                    if json_route > 0 && (rk_req.is_none() || counters || prf) {
+                    // (an absent residentKey is decoded too: a Level 1 relying party writes only requireResidentKey)
+                    if json_route > 0 && (counters || prf || (rk_req.is_none() && json_route == 4)) {
                         continue;
                     }
                     // the whole authenticatorSelection member absent: only meaningful where it says nothing
@@ -85,6 +86,10 @@ pub fn run(args: &Args) -> Report {
                             require_resident_key: require,
                             user_verification: UserVerificationRequirement::Preferred,
                         });
+                        if rk_req.is_none() && uid == 1 {
+                            // the members a caller does not care about left to the type's Default
+                            opts.public_key.authenticator_selection = Some(AuthenticatorSelectionCriteria { require_resident_key: require, ..Default::default() });
+                        }
                         if selection_absent {
                             opts.public_key.authenticator_selection = None;
                         }
@@ -403,6 +408,52 @@ pub fn run(args: &Args) -> Report {
                                 }
                                 _ => rep.violate("ctap: successful registration did not add one credential", String::new(), case.clone()),
                             }
+                        }
+                    }
+                }
+            }
+        }
+    }
+    // ---------------- a store whose area for new credentials is full (or busy) at the first attempt and
+    // accepts a second one: a registration either fails and stores nothing, or creates what was asked for
+    for disc in [Disc::Full, Disc::Forced] {
+        for rk_req in [ResidentKeyRequirement::Required, ResidentKeyRequirement::Preferred, ResidentKeyRequirement::Discouraged] {
+            for code in [0x28u8, 0x2E, 0x01] {
+                index += 1;
+                if only.map_or(false, |o| o != index) {
+                    continue;
+                }
+                rep.eval();
+                let case = json!({"index": index, "level": "client", "part": "the store refuses the first save and accepts a second one", "capability": format!("{disc:?}"), "residentKey": format!("{rk_req:?}"), "status_of_the_refused_save": code});
+                rep.nontrivial(fnv_str(&case.to_string()));
+                let want_rk = map_rk(Some(rk_req), false, true);
+                let r = catch(|| {
+                    let rig = Rig::ok(disc);
+                    rig.store.set_fault(crate::collab::Kind::Save, 0, code);
+                    let mut client = rig.client(AuthCfg::default());
+                    let mut opts = creation_options(Some("example.com"), b"the-user", "n", &[1u8; 16], vec![pk_param(coset::iana::Algorithm::ES256)]);
+                    opts.public_key.authenticator_selection = Some(AuthenticatorSelectionCriteria { authenticator_attachment: None, resident_key: Some(rk_req), require_resident_key: false, user_verification: UserVerificationRequirement::Preferred });
+                    opts.public_key.extensions = Some(AuthenticationExtensionsClientInputs { cred_props: Some(true), ..Default::default() });
+                    let reg = block_on(client.register(&url("https://example.com"), opts, DefaultClientData));
+                    (reg.map(|c| c.client_extension_results.cred_props.and_then(|p| p.discoverable)), rig.store.snapshot(), rig.log.snapshot())
+                });
+                match r {
+                    Err((sig, d)) => rep.violate(&format!("client: {sig}"), d, case),
+                    Ok((Err(_), snap, _)) => {
+                        rep.count("refused_save_registration_failed");
+                        if !snap.is_empty() {
+                            rep.violate("client: a registration that failed stored a credential", String::new(), case);
+                        }
+                    }
+                    Ok((Ok(props), snap, events)) => {
+                        rep.count("refused_save_registration_succeeded");
+                        let stored = snap.last();
+                        let told: Vec<bool> = events.iter().filter_map(|e| if let Ev::Save { rk, result: Ok(()), .. } = &e.ev { Some(*rk) } else { None }).collect();
+                        if stored.map(|s| s.user_handle.is_some()) != Some(disc.discoverable(want_rk)) || told != vec![want_rk] {
+                            rep.violate("client: user handle stored / rk option sent differently from the WebAuthn mapping", format!("after a refused first save: stored handle {:?}, store told rk={told:?}, mapping says rk={want_rk}", stored.map(|s| s.user_handle.is_some())), case.clone());
+                        }
+                        if props != Some(disc.discoverable(want_rk)) {
+                            rep.violate("client: credProps.rk is not whether the credential is discoverable", format!("{props:?} after a refused first save"), case);
                         }
                     }
                 }
